@@ -252,6 +252,30 @@ func VerifC20_SubmitWithFullBuffer() {
 	rt.Reach("submitfull-end")
 }
 
+// the final flush takes longer than the writer's idle time-out (an adapter that
+// needs a while per line, several lines still buffered at Shutdown because
+// the writer is externally scheduled and was never triggered): everything is
+// written all the same
+func VerifC20_ShutdownFlushTakesLong() {
+	rt.SchedYieldOnly(true)
+	schedulingEnabled = true // (what EnableScheduling does before the logger starts)
+	defer func() { schedulingEnabled = false }()
+	c20Start()
+	SetLogLevel(TraceLevel)
+	inner := adapter
+	adapter = AdapterFunc(func(msg Message, duplicates uint64) {
+		time.Sleep(6 * time.Millisecond) // a slow output
+		inner.Write(msg, duplicates)
+	})
+	k := 3 + rt.Choice("more", 2)
+	for i := 0; i < k; i++ {
+		Info("line" + string(rune('a'+i)))
+	}
+	Shutdown()
+	rt.Assert(c20Total() == uint64(k), "slowflush/everything-logged-before-shutdown-was-written")
+	rt.Reach("slowflush-end")
+}
+
 // ---- O4: Shutdown returns only after everything logged before it was written ----
 
 func VerifC20_Shutdown() {
